@@ -144,6 +144,8 @@ type target struct {
 	pkg      string            // "gws" | "internal"
 	fn       string            // "frameHeader.GetFIN"
 	lean     string            // Lean name (inside namespace Trans)
+	toAfter   string           // segment: ends behind the first statement with this source prefix (instead of `to`)
+	fromAfter string           // segment: starts behind the first statement with this source prefix (instead of `from`)
 	from, to string            // segment: source prefix of the first statement / of the first statement NOT included ("" = whole body)
 	oracles  map[string]string // source text of a call -> parameter name (the call's value is an input)
 	liveOut  []string          // segment: variables handed on at fall-through
@@ -183,12 +185,12 @@ var targets = []target{
 		doc:     "the header checks of readMessage between Parse and the payload read; the outcome of readControl is an input"},
 	{pkg: "gws", fn: "continuationFrame.reset", lean: "continuationFrame_reset"},
 	{pkg: "gws", fn: "Conn.readMessage", lean: "Conn_readMessage_afterPayload",
-		from: "if opcode != OpcodeContinuation && c.continuationFrame.initialized", to: "",
-		skip: []string{"if !compressed { closer.Data = nil }"},
+		fromAfter: "if maskEnabled { internal.MaskXOR(p", to: "",
+		skip:      []string{"if !compressed { closer.Data = nil }"},
 		free: map[string][]string{"c.emitMessage": {"Opcode", "Data", "compressed"}},
 		doc:  "readMessage after the payload has been read and unmasked into buf/p: the fragmentation state machine; emitMessage is left uninterpreted (its arguments are what matters), `closer` (buffer recycling) is left out"},
 	{pkg: "gws", fn: "Conn.readMessage", lean: "Conn_readMessage_payload",
-		from: "var fin =", to: "if opcode != OpcodeContinuation && c.continuationFrame.initialized",
+		from: "var fin =", toAfter: "if maskEnabled { internal.MaskXOR(p",
 		skip:  []string{"var closer =", "defer closer.Close()"},
 		fresh: map[string]bool{"buf": true}, liveOut: []string{"fin", "p"},
 		doc:   "readMessage: the payload of a data frame is read into a pooled buffer and unmasked (the buffer's recycling through `closer` is left out; a pooled buffer too small for the frame would panic in Go: that is Reader.dataFrame's panic outcome, which the model proves unreachable)"},
@@ -426,6 +428,7 @@ type fn struct {
 	segment  bool
 	noReturn bool
 	locals   map[string]bool
+	ptrAlias map[string]string // `cf := &c.continuationFrame`: a local pointer to a struct field path stands for that path
 	stale    map[string]bool // ignored variables that have been assigned (their value is unknown from then on)
 	tsBind   string          // inside a type-switch clause: which GoErr constructor the bound variable is the payload of
 	freeCont map[string]bool // free callee parameters that take the continuation
@@ -477,6 +480,9 @@ func (f *fn) pathOf(e ast.Expr) (string, bool) {
 	case *ast.StarExpr:
 		return f.pathOf(v.X)
 	case *ast.Ident:
+		if pth, ok := f.ptrAlias[v.Name]; ok {
+			return pth, true
+		}
 		if obj, ok := f.p.info.Uses[v].(*types.Var); ok && !obj.IsField() {
 			t := obj.Type()
 			if pt, ok := t.Underlying().(*types.Pointer); ok {
@@ -1399,6 +1405,33 @@ func (f *fn) block(list []ast.Stmt, k cont) string {
 			return sb.String() + next()
 		}
 	}
+	// `cf := &c.continuationFrame` / `var cf = &c.continuationFrame`: a second name for the struct at that field path (sound as
+	// long as the pointer itself is not reassigned, which a later assignment to it would make the translation refuse)
+	{
+		var name string
+		var rhs ast.Expr
+		if as, ok := s.(*ast.AssignStmt); ok && as.Tok == token.DEFINE && len(as.Lhs) == 1 && len(as.Rhs) == 1 {
+			if id, ok := as.Lhs[0].(*ast.Ident); ok {
+				name, rhs = id.Name, as.Rhs[0]
+			}
+		}
+		if ds, ok := s.(*ast.DeclStmt); ok {
+			if gd, ok := ds.Decl.(*ast.GenDecl); ok && len(gd.Specs) == 1 {
+				if vs := gd.Specs[0].(*ast.ValueSpec); len(vs.Names) == 1 && len(vs.Values) == 1 {
+					name, rhs = vs.Names[0].Name, vs.Values[0]
+				}
+			}
+		}
+		if u, ok := rhs.(*ast.UnaryExpr); ok && name != "" && u.Op == token.AND {
+			if pth, ok := f.pathOf(u.X); ok {
+				if _, isStruct := f.typeOf(u.X).Underlying().(*types.Struct); isStruct {
+					f.ptrAlias[name] = pth
+					f.locals[name] = true
+					return next()
+				}
+			}
+		}
+	}
 	// `msg := &T{F: e, …}` for a struct that is only handed to a free call: its fields are captured now
 	if as, ok := s.(*ast.AssignStmt); ok && as.Tok == token.DEFINE && len(as.Lhs) == 1 && len(as.Rhs) == 1 {
 		if lit := structLit(as.Rhs[0]); lit != nil {
@@ -2217,7 +2250,7 @@ func (tr *translator) translate(key string) *result {
 	if !ok {
 		fail("function %s.%s not found", t.pkg, t.fn)
 	}
-	f := &fn{tr: tr, p: p, decl: decl, t: t, pathSet: map[string]string{}, oracleSet: map[string]string{}, state: map[string]bool{}, locals: map[string]bool{}, alias: map[string]string{}, streams: map[string]bool{}, structs: map[string][]string{}, freeSig: map[string][]string{}, structTy: map[string]string{}, freeCont: map[string]bool{}, stale: map[string]bool{}}
+	f := &fn{tr: tr, p: p, decl: decl, t: t, pathSet: map[string]string{}, oracleSet: map[string]string{}, state: map[string]bool{}, locals: map[string]bool{}, alias: map[string]string{}, streams: map[string]bool{}, structs: map[string][]string{}, freeSig: map[string][]string{}, structTy: map[string]string{}, freeCont: map[string]bool{}, stale: map[string]bool{}, ptrAlias: map[string]string{}}
 	if decl.Recv != nil && len(decl.Recv.List) == 1 && len(decl.Recv.List[0].Names) == 1 {
 		f.recv, _ = p.info.Defs[decl.Recv.List[0].Names[0]].(*types.Var)
 	}
@@ -2226,7 +2259,7 @@ func (tr *translator) translate(key string) *result {
 		v := sig.Results().At(i)
 		lt, ok := tr.leanType(v.Type())
 		if !ok {
-			if t.from == "" {
+			if t.from == "" && t.fromAfter == "" {
 				fail("%s: result of unsupported type %s", key, v.Type())
 			}
 			lt = "Unit" // a result outside the fragment: a segment may only return nil in this position
@@ -2237,7 +2270,7 @@ func (tr *translator) translate(key string) *result {
 		}
 	}
 	stmts := decl.Body.List
-	if t.from != "" {
+	if t.from != "" || t.fromAfter != "" {
 		f.segment = true
 		// the statement list (function body, nested block or case body) that contains the first anchor
 		var lists [][]ast.Stmt
@@ -2251,14 +2284,24 @@ func (tr *translator) translate(key string) *result {
 			return true
 		})
 		lo, hi := -1, 0
+		foundToAfter := false
 		for _, l := range lists {
 			for i, s := range l {
-				if lo < 0 && strings.HasPrefix(f.stmtText(s), t.from) {
+				if lo < 0 && t.from != "" && strings.HasPrefix(f.stmtText(s), t.from) {
 					lo, hi, stmts = i, len(l), l
+					continue
+				}
+				if lo < 0 && t.fromAfter != "" && strings.HasPrefix(f.stmtText(s), t.fromAfter) && i+1 < len(l) {
+					lo, hi, stmts = i+1, len(l), l
 					continue
 				}
 				if lo >= 0 && i > lo && t.to != "" && strings.HasPrefix(f.stmtText(s), t.to) {
 					hi = i
+					break
+				}
+				if lo >= 0 && i >= lo && t.toAfter != "" && strings.HasPrefix(f.stmtText(s), t.toAfter) {
+					hi = i + 1
+					foundToAfter = true
 					break
 				}
 			}
@@ -2266,8 +2309,8 @@ func (tr *translator) translate(key string) *result {
 				break
 			}
 		}
-		if lo < 0 || (t.to != "" && hi == len(stmts)) {
-			fail("%s: segment anchors not found (`%s` … `%s`)", key, t.from, t.to)
+		if lo < 0 || (t.to != "" && hi == len(stmts)) || (t.toAfter != "" && !foundToAfter) {
+			fail("%s: segment anchors not found (`%s%s` … `%s%s`)", key, t.from, t.fromAfter, t.to, t.toAfter)
 		}
 		stmts = stmts[lo:hi]
 	}
@@ -2464,7 +2507,7 @@ func main() {
 	var keys []string
 	for _, t := range targets {
 		key := t.pkg + "." + t.fn
-		if t.from != "" {
+		if t.from != "" || t.fromAfter != "" {
 			key += "#" + t.lean
 		} else {
 			tr.byFunc[key] = key
@@ -2482,6 +2525,9 @@ func main() {
 		doc := r.t.pkg + "." + r.t.fn
 		if r.t.from != "" {
 			doc += fmt.Sprintf(" — statements from `%s` up to (not including) `%s`", r.t.from, r.t.to)
+		}
+		if r.t.fromAfter != "" {
+			doc += fmt.Sprintf(" — statements behind `%s` up to (not including) `%s`", r.t.fromAfter, r.t.to)
 		}
 		if r.t.doc != "" {
 			doc += "; " + r.t.doc
